@@ -28,6 +28,19 @@ CHECKS = {
         note='crash model = prefix of issued raw operations with torn last write; quick samples torn cuts, thorough enumerates '
              'every byte for 1 in 5 behaviours',
         design='6/C01'),
+    'C08': dict(
+        technique='TLA+ specs ZPackConc (pack/commit lock hand-over, failing pack, crash) and ZFile/ZFileTrace model-checked '
+                  'and used for trace validation; crash images after every raw operation of a pack, fault injection into the '
+                  'pack, and packer/committer/reader threads under a deterministic scheduler judged against a TLC-evaluated '
+                  'serial equivalent',
+        text='TLC checks CrashSafe/NoCommitLost/PackerReleases/FailedPackUnchanged on the atomic-swap design and exhibits the '
+             'two-rename window of the code (F6, known finding); A: every raw operation of real packs yields a crash image that '
+             'must reopen to the unpacked or packed version (validated by TLC, known findings skipped and the rest re-validated); '
+             'B: each write of the .pack file fails in turn: database unchanged and usable; C: real threads (packer, 1-2 '
+             'committers, reader, second packer) under the scheduler: final storage in memory and after reopen equals '
+             'pack(serial history) as evaluated by TLC, readers only see committed revisions, second pack refused.',
+        note='schedules at lock-operation granularity, seeded; readers use current loads (snapshots not older than the pack time)',
+        design='6/C08'),
     'C09': dict(
         technique='same ZFile/ZFileTrace specification; probes opening every quiescent directory state with every earlier saved '
                   'index (also truncated, with leftover side files) and read-only, validated by TLC',
